@@ -58,7 +58,7 @@ func buildCases(seed uint64, n int) []kase {
 	for i := 0; len(out) < n; i++ {
 		minor := i % 5
 		g := gen.New(r, gen.Mode{Minor: minor, Gate: true, Text: gen.TextASCII, TextDates: true, NamedEnums: true}, refmodel.Gates())
-		var v any
+		var v, encValue any
 		var t *c02.Target
 		vminor := minor
 		switch i % 6 {
@@ -84,6 +84,10 @@ func buildCases(seed uint64, n int) []kase {
 		default:
 			o := g.Object(gen.ObjectTypes[(i/6)%9].Code)
 			v, t, vminor = o, c02.TargetByName(gen.ObjectTypes[(i/6)%9].Name), -1
+			if (i/54)%2 == 1 {
+				// the form the payload decoders themselves use: a pointer to the interface variable holding the object
+				encValue = &o
+			}
 		}
 		var tree wire.Node
 		if t.Tag != 0 {
@@ -100,7 +104,11 @@ func buildCases(seed uint64, n int) []kase {
 			}
 		}
 		e := encsOf[(i/3)%4]
-		add(kase{enc: e, target: t, value: v, minor: vminor, desc: fmt.Sprintf("encode %s as %s", t.Name, e)})
+		if encValue != nil {
+			add(kase{enc: e, target: t, value: encValue, minor: vminor, desc: fmt.Sprintf("encode %s, given as a pointer to the interface variable, as %s", t.Name, e)})
+		} else {
+			add(kase{enc: e, target: t, value: v, minor: vminor, desc: fmt.Sprintf("encode %s as %s", t.Name, e)})
+		}
 		de := encsOf[(i/2)%3]
 		var data []byte
 		switch de {
